@@ -17,7 +17,7 @@ type linkedPlan struct {
 
 type lblock struct {
 	Size int    `json:"size"` // decoded size of the block
-	Kind string `json:"kind"` // raw | lits | m1 | mfar | mprev | mstraddle | moff
+	Kind string `json:"kind"` // raw | lits | m1 | m2 | mfar | mprev | mstraddle | moff
 	Off  int    `json:"off,omitempty"`
 }
 
@@ -47,6 +47,44 @@ func buildLinked(p linkedPlan) (frame, content []byte) {
 			d := fresh(b.Size)
 			blks = append(blks, ref.EncBlock{Data: ref.SerLast(d)})
 			content = append(content, d...)
+		case "m2":
+			// two matches in one block: a non-overlapping match inside the block (copied with memmove by the
+			// assembly decoders), then a match whose source starts in the preceding blocks, then a long literal tail
+			if b.Size < 120 || start < 8 {
+				d := fresh(b.Size)
+				blks = append(blks, ref.EncBlock{Data: ref.SerLast(d)})
+				content = append(content, d...)
+				break
+			}
+			l1 := fresh(20)
+			content = append(content, l1...)
+			m1 := 20 + (b.Size-120)/2
+			if m1 > 20 {
+				m1 = 20 + (m1-20)%300
+			}
+			base := len(content) - 20
+			for k := 0; k < m1; k++ {
+				content = append(content, content[base+k%20])
+			}
+			l2 := fresh(3)
+			content = append(content, l2...)
+			off2 := len(content) - start + 5 // starts 5 bytes before this block
+			if b.Off > 0 && b.Off >= len(content)-start+1 && b.Off <= len(content) && b.Off <= 65535 {
+				off2 = b.Off
+			}
+			if off2 > 65535 {
+				off2 = 65535
+			}
+			m2 := 8
+			base = len(content) - off2
+			for k := 0; k < m2; k++ {
+				content = append(content, content[base+k%off2])
+			}
+			t := fresh(b.Size - (len(content) - start))
+			content = append(content, t...)
+			d := append(ref.SerSeq(l1, 20, m1), ref.SerSeq(l2, off2, m2)...)
+			d = append(d, ref.SerLast(t)...)
+			blks = append(blks, ref.EncBlock{Data: d})
 		default:
 			lit, tail := 3, 5
 			m := b.Size - lit - tail
